@@ -301,6 +301,7 @@ pub open spec fn swap_removed<T>(s: Seq<T>, i: int) -> Seq<T> {
 /// listener table: position k holds token k and the listener created for token k  [C01]
 pub open spec fn sockets_wf(s: Seq<ServerSocketInfo>, bound: usize) -> bool {
     &&& s.len() == bound
+    &&& s.len() == n_listeners()
     &&& forall|k: int| 0 <= k < s.len() ==> (#[trigger] s[k]).token == k && s[k].lst.id() == k
 }
 
@@ -369,7 +370,7 @@ impl Accept {
     requires
         old(self).wf(),
         old(self).handles@.len() > 0,
-        conn.wf(),
+        conn.wf(), conn.token < n_listeners(),
     ensures
         final(self).wf(),
         final(self).same_ctl(old(self)),
@@ -414,7 +415,7 @@ impl Accept {
     requires
         old(self).wf(),
         old(self).handles@.len() > 0,
-        conn.wf(),
+        conn.wf(), conn.token < n_listeners(),
     ensures
         final(self).wf(),
         final(self).same_ctl(old(self)),
@@ -465,7 +466,7 @@ impl Accept {
         invariant
             self.wf(),
             self.handles@.len() > 0,
-            conn.wf(),
+            conn.wf(), conn.token < n_listeners(),
             self.same_ctl(old(self)),
             self.avail@.subset_of(old(self).avail@),
             forall|i: int| 0 <= i < self.handles@.len() ==> old(self).handles@.contains(#[trigger] self.handles@[i]),
@@ -483,7 +484,7 @@ impl Accept {
 //@loop 2
         invariant_except_break
             self.handles@.len() > 0,
-            conn.wf(),
+            conn.wf(), conn.token < n_listeners(),
         invariant
             self.wf(),
             self.same_ctl(old(self)),
